@@ -89,12 +89,33 @@ func c12Cases(c *ev.Ctx) []c12Case {
 	for k := 0; k < c.N(3, 30); k++ {
 		out = append(out, c12Case{Kind: "animbad", Class: "-", Alpha: "-", Extra: k})
 	}
+	// the alpha plane coder of the lossy encoder: planes of 4096 pixels and more, every filtering level and both
+	// compression methods, content on which several filter trials end with the same size (noise: every trial falls
+	// back to the raw plane; ramps and flat levels: several filters leave the same residue)
+	for k := 0; k < c.N(18, 180); k++ {
+		r := rng(c, 7000+k)
+		out = append(out, c12Case{Kind: "lossy-alpha", Class: pickS(r, "flat", "photo", "tiles"),
+			Alpha: []string{"noise", "gradient", "levels3", "blocks", "noise", "levels16"}[k%6],
+			W:     64 + r.Intn(100), H: 64 + r.Intn(60), Method: []int{4, 0, 6, 2}[k%4], Quality: 75, Extra: k})
+	}
 	return out
 }
 
 func c12Digest(c *ev.Ctx, idx int, cc c12Case) (string, error) {
 	r := rng(c, idx+1<<20)
 	switch cc.Kind {
+	case "lossy-alpha":
+		m := img.Gen(r, cc.Class, cc.Alpha, cc.W, cc.H)
+		o := webp.DefaultOptions()
+		o.Method, o.Quality = cc.Method, cc.Quality
+		o.AlphaFiltering = []int{2, 1, 2, 0, 2, 1}[cc.Extra%6]
+		o.AlphaCompression = []int{1, 1, 1, 0}[(cc.Extra/6)%4]
+		o.AlphaQuality = []int{100, 100, 60, 0}[(cc.Extra/3)%4]
+		data, err := encode(m, o)
+		if err != nil {
+			return "", err
+		}
+		return "enc=" + ev.Sum(data) + " alph=" + ev.Sum(riffChunks(data)["ALPH"]), nil
 	case "lossy", "lossless":
 		m := img.Gen(r, cc.Class, cc.Alpha, cc.W, cc.H)
 		o := webp.DefaultOptions()
